@@ -130,7 +130,7 @@ const SHAPES: &[&[(bool, usize)]] = &[
     &[(true, 1), (false, 0)],
 ];
 
-// @obl props=C01,C02 tier=quick fn=abe_policy::AccessStructure::generate_complementary_rights shape="8 structures (<= 3 dimensions x <= 3 attributes), all user policies of <= 3 terms without same-dimension clash"
+// @obl props=C01,C02,C03,C06 tier=quick fn=abe_policy::AccessStructure::generate_complementary_rights shape="8 structures (also with one attribute disabled) (<= 3 dimensions x <= 3 attributes), all user policies of <= 3 terms without same-dimension clash"
 #[test]
 fn complementary_rights__equal_cover_relation() {
     let mut n = 0u64;
@@ -146,6 +146,13 @@ fn complementary_rights__equal_cover_relation() {
             vchk!(want.is_subset(&got), "C01: structure {shape:?}: user policy {p:?} lacks rights of points it covers: {:?}", want.difference(&got).collect::<Vec<_>>());
             vchk!(got.is_subset(&want), "C02: structure {shape:?}: user policy {p:?} receives rights of points it does not cover: {:?}", got.difference(&want).collect::<Vec<_>>());
             n += 1;
+            // disabling an attribute changes what can be encrypted, not what a key covers (C03 / C06: keys keep opening)
+            if let Some(first) = all_attrs(&s).into_iter().next() {
+                let mut s2 = s.clone();
+                s2.disable_attribute(&first).unwrap();
+                let got2: BTreeSet<Right> = s2.generate_complementary_rights(&p).unwrap().into_iter().collect();
+                vchk!(got2 == want, "C01/C03/C06: structure {shape:?} with {first:?} disabled: user policy {p:?} receives {} rights instead of the {} it covers (a disabled attribute is still decryptable)", got2.len(), want.len());
+            }
         }
     }
     println!("VERIF-COUNT complementary_rights__equal_cover_relation {n}");
